@@ -1,5 +1,5 @@
 (* line protocol (one request per line, s-expressions of integers):
-   D <blocks>   -> JSON of `denote`              blocks: (10 k inl..) (11 (inl..)..) (12 ((p..) (inl..) [(inl..)])..) (13 ((hdr inl..)..)..) (14 (inl..)..)
+   D <blocks>   -> JSON of `denote`              blocks: (10 k inl..) (11 (inl..)..) (12 ((p..) (inl..) [(inl..)])..) (13 ((hdr inl..)..)..) (14 (inl..)..) (15 (inl..) ((hdr inl..)..)..)
                                                  inl: (0 w) (1 inl..) (2 inl..) (3 t inl..) (4 u inl..) (5 inl..)
    S <items>    -> "<parse_sections> # <nest>"   items: (1 k c) heading, (0 x) block; output as s-expressions
    L <lines>    -> JSON of den_list              lines: ((p..) w) | ((p..) w d)   (d = word after the colon)
@@ -49,12 +49,13 @@ let block_of = function
       | _ -> failwith "line") r)
   | L (I 13 :: r) -> BTable (List.map (function L cells -> List.map (function L (I h :: r) -> (h = 1, List.map inl_of r) | _ -> failwith "cell") cells | _ -> failwith "row") r)
   | L (I 14 :: r) -> BPre (List.map inls r)
+  | L (I 15 :: L cap :: r) -> BTableC (List.map inl_of cap, List.map (function L cells -> List.map (function L (I h :: r) -> (h = 1, List.map inl_of r) | _ -> failwith "cell") cells | _ -> failwith "row") r)
   | _ -> failwith "block"
 let label_json = function
   | LSec k -> Printf.sprintf "[\"sec\", %d]" (int_of_nat k) | LHeading -> "[\"heading\"]" | LP -> "[\"p\"]" | LUl -> "[\"ul\"]"
   | LOl -> "[\"ol\"]" | LLi -> "[\"li\"]" | LDt -> "[\"dt\"]" | LDd -> "[\"dd\"]" | LTable -> "[\"table\"]" | LRow -> "[\"row\"]"
   | LCell h -> Printf.sprintf "[\"cell\", %s]" (if h then "true" else "false") | LPre -> "[\"pre\"]" | LRef -> "[\"ref\"]"
-  | LLink t -> Printf.sprintf "[\"link\", %d]" (int_of_n t) | LExt u -> Printf.sprintf "[\"ext\", %d]" (int_of_n u)
+  | LLink t -> Printf.sprintf "[\"link\", %d]" (int_of_n t) | LExt u -> Printf.sprintf "[\"ext\", %d]" (int_of_n u) | LCaption -> "[\"caption\"]"
 let rec tree_json = function
   | Leaf (w, b, i) -> Printf.sprintf "[\"L\", %d, %s, %s]" (int_of_n w) (if b then "true" else "false") (if i then "true" else "false")
   | Node (l, ch) -> Printf.sprintf "[\"N\", %s, %s]" (label_json l) (trees_json ch)
